@@ -1,6 +1,7 @@
 import RockitModel.Proofs.Grid
 import RockitModel.Model.Transcribe
 import Mathlib.Tactic.LinearCombination
+import RockitModel.Generated.Reads
 /-!
 # C06 — the time grid is the declared partition of [t0, t0+T]
 -/
@@ -182,5 +183,12 @@ example : (uniformSpec (K := ℚ)).tau 4 1 2 (fun _ => 0) (fun _ => 0) 3 = 5/2 :
   rw [uniform_node 4 3 (by omega)]; norm_num
 example : geomNormalized (2:ℚ) 3 = [0, 1/7, 3/7, 1] := by
   simp [geomNormalized, geomRaw]; norm_num
+
+
+/-- the time-grid coupling rows are added by every sampling method (regenerated table): MultipleShooting,
+SingleShooting and DirectCollocation all call `add_coupling_constraints` for every control interval -/
+theorem coupling_rows_added_by_every_method :
+    ∀ m ∈ Rockit.Generated.methodReads, m.cls ∈ ["MultipleShooting", "SingleShooting", "DirectCollocation"] → m.coupling = true := by
+  decide
 
 end Rockit.C06
